@@ -62,6 +62,20 @@ func hashSum32(c *FnCtx, x *ast.CallExpr, fobj *types.Func, args []string, st *S
 // sprintfModel handles formats made of literal text and %s / %v applied to string-typed arguments;
 // anything else is an uninterpreted function of the (boxed) arguments.
 func sprintfModel(c *FnCtx, x *ast.CallExpr, fobj *types.Func, args []string, st *State) []string {
+	if len(x.Args) == 2 && !x.Ellipsis.IsValid() {
+		// single verb applied to one scalar: modelled through the conversion laws of reflectmodel.go.
+		// args[1] is the packed variadic slice; the boxed operand is re-evaluated from the source expression
+		if _, isID := unparen(x.Args[1]).(*ast.Ident); !isID {
+			// only for side-effect-free operands (re-evaluated below)
+		} else if at := c.info().TypeOf(x.Args[1]); at != nil {
+			if b, isBasic := at.Underlying().(*types.Basic); !(isBasic && b.Info()&types.IsString != 0) {
+				boxed := c.convertTo(c.eval(x.Args[1], st), at, types.NewInterfaceType(nil, nil), st)
+				if r, ok := sprintfScalar(c, x, []string{args[0], boxed}, st); ok {
+					return []string{r}
+				}
+			}
+		}
+	}
 	tv, ok := c.info().Types[x.Args[0]]
 	if ok && tv.Value != nil && tv.Value.Kind() == constant.String && !x.Ellipsis.IsValid() {
 		format := constant.StringVal(tv.Value)
